@@ -423,9 +423,16 @@ pub fn fire_next_timer() -> bool {
 /// executor runs (FIFO) after each distinct due time, as a live executor would.
 pub fn advance(dt: Duration, prompt: bool) {
   let target = now() + dt;
+  let mut rounds = 0usize;
   loop {
     match next_due() {
       Some(d) if d <= target => {
+        // no generator asks for more than a few thousand firings within one advance: a task that re-arms its timer
+        // with a zero (or ever shrinking) delay would spin here for ever - make it a verdict instead of a hang
+        rounds += 1;
+        if rounds > 200_000 {
+          panic!("verif: timer storm: more than 200000 timer firings within one clock advance of {} ticks", dt.as_nanos());
+        }
         fire_and_mark(d);
         if prompt {
           run_until_stalled();
